@@ -3,7 +3,7 @@
 // read-size pattern of the reader is an explored environment choice.  Reference observation = eager
 // memory_input.  With a buffer that is too small the only permitted deviation is std::overflow_error.
 #define VERIF_K 5
-#define VERIF_GROUPS ( T::G_CORE | T::G_CORE3 | T::G_ATOM2 | T::G_MUST )
+#define VERIF_GROUPS ( T::G_CORE | T::G_CORE3 | T::G_ATOM2 | T::G_MUST | T::G_RAW )
 #define VERIF_FAMS 1
 #define VERIF_CTLS 1
 #include "../engine/pipeline.hpp"
@@ -182,24 +182,39 @@ int main( int argc, char** argv )
    mkdir( "build/scratch", 0777 );
    mkdir( scratch.c_str(), 0777 );
 
-   const std::string sigma = "a\r\nb";
-   const int L = thorough ? 5 : 4;
+   struct Round
+   {
+      std::string sigma;
+      int L;
+      std::vector< const char* > root, inner;
+   };
+   const std::vector< Round > rounds = {
+      { "a\r\nb", thorough ? 5 : 4, { "ANY", "ONE_A", "STRING_AB", "EOL", "BYTES2", "REQUIRE2", "STAR", "PLUS", "OPT", "AT", "NOT_AT", "SEQ", "SOR", "MUST" }, { "ANY", "ONE_A", "STRING_AB", "EOF_", "EOL", "BYTES2", "REQUIRE2", "SUCCESS", "FAILURE", "STAR", "PLUS", "OPT", "AT", "NOT_AT", "SEQ", "SOR", "MUST" } },
+      // hand-written multi-byte look-ahead of raw_string (opening bracket, closing bracket) across buffer refills
+      { "[=]x", thorough ? 7 : 6, { "RAW", "SEQ", "SOR", "OPT" }, { "RAW", "ANY", "EOF_" } },
+   };
+   auto ops = []( std::vector< const char* > v ) { std::vector< int > r; for( auto n : v ) r.push_back( op_by_name( n ) ); return r; };
+   std::vector< std::string > all_files;
+   for( const auto& round : rounds ) {
+   const std::string sigma = round.sigma;
+   const int L = round.L;
    std::vector< std::string > inputs;
    for_inputs( sigma, L, [ & ]( const std::string& s ) { inputs.push_back( s ); } );
    // files for the file based inputs, once per input string
    for( const auto& s : inputs ) {
       std::ofstream f( file_for( s ), std::ios::binary );
       f.write( s.data(), std::streamsize( s.size() ) );
+      all_files.push_back( file_for( s ) );
    }
    ProgEnum pe;
    pe.maxn = 2;
-   auto ops = []( std::vector< const char* > v ) { std::vector< int > r; for( auto n : v ) r.push_back( op_by_name( n ) ); return r; };
-   pe.root = ops( { "ANY", "ONE_A", "STRING_AB", "EOL", "BYTES2", "REQUIRE2", "STAR", "PLUS", "OPT", "AT", "NOT_AT", "SEQ", "SOR", "MUST" } );
-   pe.inner = ops( { "ANY", "ONE_A", "STRING_AB", "EOF_", "EOL", "BYTES2", "REQUIRE2", "SUCCESS", "FAILURE", "STAR", "PLUS", "OPT", "AT", "NOT_AT", "SEQ", "SOR", "MUST" } );
+   pe.root = ops( round.root );
+   pe.inner = ops( round.inner );
    long prog_index = 0;
    pe.run( [ & ]( int n ) {
       if( ( prog_index++ % vf::args.nshards ) != vf::args.shard ) return;
       if( vf::out_of_time() ) return;
+      vf::count( round.sigma == "[=]x" ? "programs_raw_string_round" : "programs_main_round" );
       // relocate the program to rules 3,4
       Entry prog[ 2 ] = { tab[ 0 ], tab[ 1 ] };
       for( int i = 0; i < 2; ++i ) {
@@ -337,6 +352,7 @@ int main( int argc, char** argv )
       tab[ 0 ] = save0;
       tab[ 1 ] = save1;
    } );
+   }  // rounds
    // the `everything` rule on an incremental input whose buffer cannot hold the rest of the stream
    if( vf::args.shard == 0 ) {
       for( unsigned i = 0; i < K; ++i ) tab[ i ] = { uint8_t( op_by_name( "FAILURE" ) ), 0, 0, 0 };
@@ -361,7 +377,7 @@ int main( int argc, char** argv )
    vf::st.states += X.nodes + vf::st.evaluations;
    vf::st.transitions += X.nodes + X.edges + vf::st.evaluations;
    // scratch files
-   for( const auto& s : inputs ) std::remove( file_for( s ).c_str() );
+   for( const auto& f : all_files ) std::remove( f.c_str() );
    rmdir( scratch.c_str() );
    vf::finish();
    return 0;
